@@ -21,6 +21,7 @@ CONSTANTS Nodes, MaxT, MaxOps, MaxRejoin,
 VARIABLES cfg, st, now, prev, last, nops
 vars == <<cfg, st, now, prev, last, nops>>
 
+Perms == Permutations(Nodes)       \* the node tokens are interchangeable
 Configs == {c \in [repl : ReplSet, crit : CritSet, vet : VetSet, enforce : BOOLEAN, bpd : BpdSet, maxb : {MaxbM}] : Ordered(c)}
 Init == cfg \in Configs /\ st = Empty /\ now = 0 /\ prev = [st |-> Empty, now |-> 0]
         /\ last = [op |-> "init", n |-> 0, r |-> 0, panic |-> FALSE] /\ nops = 0
